@@ -278,6 +278,21 @@ Definition msg_equiv (S : mspec) (m m2 : mstate) : Prop :=
      exists s x y, zlookup id (ms_fields S) = Some s /\ zlookup id (m_fields m) = Some x /\ zlookup id (m_fields m2) = Some y /\
                    equiv s x y /\ pack_f s y = pack_f s x).
 
+Lemma zlookup_reset S present fields id : zlookup id (reset_fields S present fields) =
+  match zlookup id fields with
+  | None => None
+  | Some st => Some (if zmem id present then match zlookup id (ms_fields S) with Some s => fresh s | None => st end else st)
+  end.
+Proof.
+  unfold reset_fields. induction fields as [|(k, v) r IH]; [reflexivity|]. cbn [map fst].
+  destruct (id =? k) eqn:E.
+  - assert (k = id) by lia. subst k. cbn [zlookup]. rewrite E.
+    destruct (zmem id present); [|cbn [zlookup]; rewrite E; reflexivity].
+    destruct (zlookup id (ms_fields S)); cbn [zlookup]; rewrite E; reflexivity.
+  - cbn [zlookup]. rewrite E. rewrite <- IH.
+    destruct (zmem k present); [destruct (zlookup k (ms_fields S))|]; cbn [zlookup]; rewrite E; reflexivity.
+Qed.
+
 Lemma bits_inv_new b : 1 <= bm_len b -> bits_inv b (bm_new b) 1 [].
 Proof.
   intros HB. split; [lia|]. split; [unfold bm_new; rewrite zlen_repeat; lia|]. intros k. unfold bm_new. rewrite isset_zeros. cbn [zmem existsb orb].
@@ -325,7 +340,8 @@ Proof.
   assert (b = mtib ++ bmb ++ body) by congruence. subst b. clear Hpk.
   cbn [with_bm m_mti] in Emti. rewrite Hb1 in Emti. cbn [pack_f] in Emti.
   (* unpack *)
-  unfold m_unpack. set (m1 := with_bm (m_bitmap S (with_present m0 [])) (bm_new (ms_bm S))).
+  unfold m_unpack. cbv zeta. set (m0r := with_fields m0 (reset_fields S (m_present m0) (m_fields m0))).
+  set (m1 := with_bm (m_bitmap S (with_present m0r [])) (bm_new (ms_bm S))).
   cbn [unpack_f]. rewrite <- !app_assoc.
   rewrite (prim_roundtrip (ms_mti S) (m_mti m) mtib Hmti Hmtidom Emti (m_mti m1) (bmb ++ body ++ rest)).
   cbn [with_present with_mti m_bm m_present m_fields]. rewrite zdrop_app.
@@ -334,7 +350,7 @@ Proof.
   2:{ intros i Hi. apply zmem_In in Hi. apply filter_In in Hi. destruct Hi as (_ & Hi). apply Bool.negb_true_iff, Bool.orb_false_iff in Hi. destruct Hi as (Hi1 & Hi2). split; [lia|exact Hi2]. }
   2:{ exact Ebm. }
   cbn [with_bm with_present m_present m_fields m_mti m_bm m_bmcached].
-  assert (Hm1f : m_fields m1 = m_fields m0) by (unfold m1, m_bitmap; destruct (m_bmcached (with_present m0 [])); reflexivity).
+  assert (Hm1f : m_fields m1 = reset_fields S (m_present m0) (m_fields m0)) by (unfold m1, m_bitmap; destruct (m_bmcached (with_present m0r [])); reflexivity).
   destruct Hinv as (Hk' & Hlen' & Hbits').
   assert (HN : 8 <= zlen bm * 8) by nia.
   destruct (unpack_fields_rt S bm (with_bm mb bm) rest (Z.to_nat (zlen bm * 8 - 1)) 2 l body) with
@@ -353,12 +369,13 @@ Proof.
   - exact Ebody.
   - rewrite <- !app_assoc. reflexivity.
   - zlens. lia.
-  - rewrite Hm1f. exact Hsh.
+  - rewrite Hm1f. intros id s Hs. destruct (Hsh id s Hs) as (st & Hst & Hshaped). rewrite zlookup_reset, Hst. eexists. split; [reflexivity|].
+    destruct (zmem id (m_present m0)); [|exact Hshaped]. rewrite Hs. apply fresh_shaped. apply (Hcoh id s Hs).
   - change (m_fields (with_mti m1 (m_mti m))) with (m_fields m1). rewrite Hun. eexists. split; [f_equal; f_equal; zlens; lia|].
     unfold msg_equiv, with_fields, with_present, with_bm, with_mti. cbn [m_mti m_bm m_present m_fields].
     assert (Hpre : forall id, zmem id (zadd 1 (zadd 0 (m_present m1))) = (id =? 1) || (id =? 0)).
     { intros id. rewrite !zmem_zadd. unfold m1, m_bitmap, with_present, with_bm. cbn [m_bmcached m_present].
-      destruct (m_bmcached m0); cbn [m_present]; [cbn; rewrite Bool.orb_false_r; reflexivity|].
+      destruct (m_bmcached m0r) eqn:Ecr; cbn [m_present]; [cbn; rewrite Bool.orb_false_r; reflexivity|].
       rewrite zmem_zadd. cbn. destruct (id =? 1), (id =? 0); reflexivity. }
     split; [symmetry; exact Hb1|]. split; [reflexivity|]. split; [|split].
     + intros id Hne. rewrite Hp1, Hpre. replace (id =? 1) with false by lia. cbn [orb].
